@@ -298,6 +298,10 @@ def reuse_one_parser(spec, path, exp_cells, rec):
 
 
 def run_case(case):
+    if 'timed' in case:
+        # the whole family again: where exactly a time threshold is crossed depends on the load of the machine
+        fs = run_timed_family(case['timed'], TIMED[case['timed']], None)
+        return fs
     if 'family' in case:
         return run_family_point(case['family'], case['size'], None)[0]
     spec = dict(case)
@@ -311,6 +315,8 @@ def run_case(case):
 
 
 def shrink_candidates(case):
+    if 'timed' in case:
+        return
     if 'family' in case:
         if case['size'] > 1:
             yield {**case, 'size': case['size'] - 1}
@@ -475,6 +481,97 @@ def run_family(name, dmax, rec):
     return fails
 
 
+# ------------------------------------------------------------------ timed families (work inside C regular expressions)
+
+TIMED = {'quoted-title': 31, 'quoted-title-unterminated': 31, 'spaces': 12, 'upper-run': 12, 'digits-then-letter': 12, 'quote-run': 12,
+         'dollar-run': 12}
+TIMED_LIMIT = 90.0
+
+
+def timed_model(name, d):
+    cells = {'A1': 1}
+    sheets = [{'title': 'S', 'cells': cells}]
+    if name.startswith('quoted-title'):
+        t = ('Long title ' + 'x' * 31)[:d] if d > 10 else 'T' * d
+        t = t.rstrip() or 'T'
+        sheets.append({'title': t, 'cells': {'A1': 5}})
+        cells['C1'] = f"='{t}'!A1+1" if name == 'quoted-title' else f"='{t}"
+    elif name == 'spaces':
+        cells['C1'] = '=1' + (' ' * (300 * d)) + '+' + ('\t' * (100 * d)) + '2'
+    elif name == 'upper-run':
+        cells['C1'] = '=' + 'ABCDEFGHIJ' * (30 * d) + '(1)'
+    elif name == 'digits-then-letter':
+        cells['C1'] = '=' + '1234567890' * (30 * d) + 'x'
+    elif name == 'quote-run':
+        cells['C1'] = '=' + "'" * (40 * d) + '!A1'
+    elif name == 'dollar-run':
+        cells['C1'] = '=' + '$A' * (40 * d) + '$1'
+    else:
+        raise env.HarnessError(name)
+    return {'sheets': sheets}
+
+
+def child_main():
+    import json
+    import time
+    job = json.load(sys.stdin)
+    path = wbk.write_xlsx(timed_model(job['family'], job['size']))
+    t0 = time.perf_counter()
+    o = wbk.outcome(lambda: wbk.translate_path(path), timeout=3600)
+    json.dump({'outcome': o[0] if o[0] != 'lib' else 'lib:' + o[1], 'detail': (o[1] if o[0] == 'foreign' else ''), 'elapsed': time.perf_counter() - t0}, sys.stdout)
+
+
+def run_timed_point(name, d):
+    """-> dict(outcome=..., elapsed=...) or {'outcome': 'killed', 'elapsed': TIMED_LIMIT}"""
+    import json
+    import subprocess
+    envv = dict(os.environ, VF_TMP_PARENT=env.tmpdir())
+    try:
+        p = subprocess.run([sys.executable, '-B', '-m', 'vf.props.c06'], input=json.dumps({'family': name, 'size': d}), capture_output=True, text=True,
+                           cwd=env.VERIF, env=envv, timeout=TIMED_LIMIT)
+    except subprocess.TimeoutExpired:
+        return {'outcome': 'killed', 'elapsed': TIMED_LIMIT}
+    if p.returncode != 0:
+        raise env.HarnessError(f'C06 timed child failed: {p.stderr[-1500:]}')
+    return json.loads(p.stdout)
+
+
+def run_timed_family(name, dmax, rec):
+    fails = []
+    hist = []
+    for d in range(1, dmax + 1):
+        if rec is not None and rec.out_of_time():
+            break
+        r = run_timed_point(name, d)
+        hist.append((d, round(r['elapsed'], 3), r['outcome']))
+        if rec is not None:
+            rec.case({'timed': name, 'size': d}, d >= 8, ['timed:' + name, 'outcome:' + r['outcome']], sample={'timed': name, 'size': d, 'elapsed': round(r['elapsed'], 3)})
+        case = {'timed': name, 'size': d}
+        if r['outcome'] == 'foreign':
+            fails.append({'case': case, 'expected': 'source text or an E2PyclException', 'actual': ['foreign', r.get('detail')], 'relation': 'library-exception-or-text',
+                          'bucket': f'timed:{name}:translate:{r.get("detail")}', 'extra': None})
+            break
+        quick_before = [e for (_, e, _) in hist[:-1]][-3:]
+        if r['outcome'] == 'killed':
+            # no answer within 90 s although the three next smaller sizes answered within 3 s each: not load, a blow-up
+            if len(quick_before) == 3 and max(quick_before) < 3.0:
+                fails.append({'case': case, 'expected': f'an answer within {TIMED_LIMIT:.0f} s (sizes before: {hist[-4:-1]})', 'actual': 'no answer (translation killed)',
+                              'relation': 'translation-terminates', 'bucket': f'timed:{name}:hang', 'extra': {'history': hist[-8:]}})
+            elif rec is not None:
+                rec.count('timed_inconclusive')
+            break
+        if len(hist) >= 4:
+            last = hist[-4:]
+            ratios = [last[i + 1][1] / max(last[i][1], 1e-3) for i in range(3)]
+            if all(x > 1.7 for x in ratios) and last[-1][1] > 2.0:
+                fails.append({'case': case, 'expected': 'time(d+1)/time(d) < 1.7', 'actual': last, 'relation': 'translation-terminates',
+                              'bucket': f'timed:{name}:growth', 'extra': {'ratios': ratios}})
+                break
+    if rec is not None and hist:
+        rec.count(f'timed:{name}:max_elapsed_ms', int(max(e for _, e, _ in hist) * 1000))
+    return fails
+
+
 # ------------------------------------------------------------------ generators
 
 TITLE_ALPHABET = "AbC xyz09_-.,;!'\"()+&%#{}$@~=<>|äЖ中📊𝒳  "
@@ -550,6 +647,7 @@ def plan(tier):
     specs = [{'kind': 'wb', 'shard': i, 'adversarial': i % 2 == 1, 'examples': n_adv if i % 2 else n_clean} for i in range(NSHARD)]
     specs += [{'kind': 'deep', 'shard': 100 + i, 'families': sorted(FAMILIES)[i::4], 'scale': 1 if tier == 'quick' else 2} for i in range(4)]
     specs += [{'kind': 'list', 'shard': 200}]
+    specs += [{'kind': 'timed', 'shard': 300 + i, 'families': sorted(TIMED)[i::4]} for i in range(4)]
     return specs
 
 
@@ -559,6 +657,10 @@ def run_shard(spec, rec):
             for f in run_spec(s, rec):
                 rec.fail(**f)
         hyp_run(wb_strategy(spec['adversarial']), body, spec['examples'], (ID, spec['shard']), rec)
+    elif spec['kind'] == 'timed':
+        for name in spec['families']:
+            for f in run_timed_family(name, TIMED[name], rec):
+                rec.fail(**f)
     elif spec['kind'] == 'deep':
         for name in spec['families']:
             for f in run_family(name, FAMILIES[name] * spec['scale'], rec):
@@ -574,3 +676,7 @@ def run_shard(spec, rec):
 
 
 MATCHERS = {}
+
+
+if __name__ == '__main__':
+    child_main()
